@@ -421,8 +421,13 @@ pub fn apply_fault(e: usize, t: &mut Tape, cs: &mut ConfStream) -> Option<Fault>
             }
             let (li, pi, wi) = cands[t.below(cands.len())];
             let w = &mut cs.stream.links[li].packets[pi].words[wi];
-            w[0] ^= 0x5A; // user field changes
-            w[1] ^= 0xA5;
+            // the 48-bit user field changes in one bit (lowest, highest or any)
+            let bit = match t.below(3) {
+                0 => 0,
+                1 => 47,
+                _ => t.below(48),
+            };
+            w[bit / 8] ^= 1 << (bit % 8);
             if w[6] == 0 && w[7] == 0 && w[8] == 0 {
                 w[6] = 1 + t.below(255) as u8; // index != 0
             }
